@@ -14,6 +14,7 @@ import (
 	"verif/simrt/simnet"
 
 	"github.com/bfenetworks/bfe/bfe_basic"
+	"github.com/bfenetworks/bfe/bfe_http"
 	"github.com/bfenetworks/bfe/bfe_module"
 )
 
@@ -50,6 +51,8 @@ func runNode(focus string) func(s *simrt.Sim) {
 		e.conf = e.genConf(nconn)
 		// forward-phase filter verdicts (C07): per request id, drawn up front
 		fwdFinish := map[int]bool{}
+		finFinish := map[int]bool{} // HandleRequestFinish filter answers BfeHandlerFinish
+		rspFinish := map[int]bool{} // HandleReadResponse filter answers BfeHandlerFinish
 		id := 0
 		pipeline := 1
 		if focus == "C28" && tp.Chance(1, 2, "pipeline") {
@@ -68,6 +71,12 @@ func runNode(focus string) func(s *simrt.Sim) {
 				}
 				if focus == "C07" && e.faults && tp.Chance(1, 6, "fwd_finish") {
 					fwdFinish[id] = true
+				}
+				if focus == "C07" && e.faults && tp.Chance(1, 6, "fin_finish") {
+					finFinish[id] = true
+				}
+				if focus == "C07" && e.faults && tp.Chance(1, 8, "rsp_finish") {
+					rspFinish[id] = true
 				}
 				e.plans[id] = p
 				list = append(list, p)
@@ -90,6 +99,24 @@ func runNode(focus string) func(s *simrt.Sim) {
 			n.srv.CallBacks.AddFilter(bfe_module.HandleForward, func(req *bfe_basic.Request) int {
 				if fwdFinish[reqIDOf(req.HttpRequest.URL.Path)] {
 					s.Probe("forward_filter_finish")
+					return bfe_module.BfeHandlerFinish
+				}
+				return bfe_module.BfeHandlerGoOn
+			})
+		}
+		if len(finFinish) > 0 {
+			n.srv.CallBacks.AddFilter(bfe_module.HandleRequestFinish, func(req *bfe_basic.Request, res *bfe_http.Response) int {
+				if finFinish[reqIDOf(req.HttpRequest.URL.Path)] {
+					s.Probe("finish_filter_finish")
+					return bfe_module.BfeHandlerFinish
+				}
+				return bfe_module.BfeHandlerGoOn
+			})
+		}
+		if len(rspFinish) > 0 {
+			n.srv.CallBacks.AddFilter(bfe_module.HandleReadResponse, func(req *bfe_basic.Request, res *bfe_http.Response) int {
+				if rspFinish[reqIDOf(req.HttpRequest.URL.Path)] {
+					s.Probe("response_filter_finish")
 					return bfe_module.BfeHandlerFinish
 				}
 				return bfe_module.BfeHandlerGoOn
